@@ -54,6 +54,7 @@ def covered : List (Site × Cover) :=
    (("ssdp_listener:extract_uncache_after", "int(", "OverflowError,ValueError"), .model Exn.intDigitsLimit "ValueError handler in the function (intGuard)"),
    (("ssdp_listener:extract_uncache_after", "[1]", "OverflowError,ValueError"), .safe "group 1 exists whenever the pattern matched"),
    (("ssdp_listener:extract_valid_to", "+", "OverflowError"), .model Exn.datetimeOverflow "OverflowError handler in the function (dtGuard)"),
+   (("ssdp_listener:SsdpDevice.purge_locations", "del[location]", "-"), .safe "key collected from / looked up in the same dict just before"),
    (("ssdp_listener:same_headers_differ", "[0]", "-"), .safe "guarded by lower_header != \"\""),
    (("ssdp_listener:same_headers_differ", "[current_header]", "-"), .safe "key taken from the map's own case map (C16 invariant: every case-map value is a key of the data dict)"),
    (("ssdp_listener:same_headers_differ", "[new_header]", "-"), .safe "key taken from the map's own case map (C16 invariant: every case-map value is a key of the data dict)"),
@@ -62,7 +63,6 @@ def covered : List (Site × Cover) :=
    (("ssdp_listener:ip_version_from_location", ".hostname", "ValueError"), .caught "inside suppress(ValueError); no effect on what C02 observes"),
    (("ssdp_listener:ip_version_from_location", "urlparse(", "ValueError"), .caught "inside suppress(ValueError); no effect on what C02 observes"),
    (("ssdp_listener:ip_version_from_location", "ip_address(", "ValueError"), .caught "inside suppress(ValueError); no effect on what C02 observes"),
-   (("ssdp_listener:SsdpDevice.purge_locations", "del[location]", "-"), .safe "key collected from / looked up in the same dict just before"),
    (("ssdp_listener:SsdpDeviceTracker.see_search", "unpack self._see_device(headers)", "-"), .safe "the callee returns a tuple of fixed arity"),
    (("ssdp_listener:SsdpDeviceTracker.see_search", "[search_target]", "-"), .safe "guarded by an `in` test on the same dict"),
    (("ssdp_listener:SsdpDeviceTracker.see_advertisement", "unpack self._see_device(headers)", "-"), .safe "the callee returns a tuple of fixed arity"),
@@ -89,7 +89,10 @@ def covered : List (Site × Cover) :=
    (("utils:CaseInsensitiveDict.__setitem__", "del[self._case_map[lower_key]", "-"), .safe "key taken from the case map (C16 invariant)"),
    (("utils:CaseInsensitiveDict.__setitem__", "[lower_key]", "-"), .safe "key taken from the case map (C16 invariant)"),
    (("utils:CaseInsensitiveDict.__getitem__", "[self._case_map[key.lower]", "-"), .model Exn.keyError "Mapping protocol: the receive path only reads _host this way (host_present)"),
-   (("utils:CaseInsensitiveDict.__getitem__", "[key.lower()]", "-"), .model Exn.keyError "Mapping protocol: the receive path only reads _host this way (host_present)")]
+   (("utils:CaseInsensitiveDict.__getitem__", "[key.lower()]", "-"), .model Exn.keyError "Mapping protocol: the receive path only reads _host this way (host_present)"),
+   (("utils:CaseInsensitiveDict.__delitem__", "del[self._case_map[lower_key]", "-"), .safe "user-facing mapping protocol (KeyError by design); on the receive path only reached by name over-approximation of `del d[k]` on plain dicts"),
+   (("utils:CaseInsensitiveDict.__delitem__", "[lower_key]", "-"), .safe "user-facing mapping protocol (KeyError by design); on the receive path only reached by name over-approximation of `del d[k]` on plain dicts"),
+   (("utils:CaseInsensitiveDict.__delitem__", "del[lower_key]", "-"), .safe "user-facing mapping protocol (KeyError by design); on the receive path only reached by name over-approximation of `del d[k]` on plain dicts")]
 
 def Cover.raises : Cover → Bool
   | .model _ _ => true
